@@ -13,6 +13,7 @@ class Monitor(object):
         self.cfg = cfg
         self.validated = 0
         self.caps = {i + 1: oracles.capacity(n) for i, n in enumerate(cfg["nodes"])}
+        self.kinds = {i + 1: oracles.node_kind(n) for i, n in enumerate(cfg["nodes"])}
         self.shadow = {i + 1: [] for i in range(len(cfg["nodes"]))}   # fifo_block[dest] = [(from node, id)]
         self.block_time = {}
         self.finishing = None
@@ -32,7 +33,7 @@ class Monitor(object):
         if cap is not None and self.pop(dest) < cap:
             self.violate("blocked_although_space", {"node": node.id_number, "dest": dest.id_number, "id": ind.id_number,
                                                      "dest_population": self.pop(dest), "capacity": cap})
-        if not (ind.server and ind.server.cust is ind):
+        if self.kinds[node.id_number] in ("fixed", "sched") and not (ind.server and ind.server.cust is ind):
             self.violate("blocked_without_server", {"node": node.id_number, "id": ind.id_number})
         self.shadow[dest.id_number].append((node.id_number, ind.id_number))
         self.block_time[ind.id_number] = now
@@ -80,7 +81,7 @@ class Monitor(object):
             for ind in nd.all_individuals:
                 if ind.is_blocked:
                     held = hasattr(nd, "servers") and any(s.cust is ind for s in nd.servers)
-                    if not held:
+                    if not held and self.kinds[nid] in ("fixed", "sched"):
                         self.violate("blocked_customer_without_server", {"node": nid, "id": ind.id_number})
                     d = ind.destination
                     if d is False or d is None:
@@ -157,6 +158,8 @@ def focused(tier):
     out.append(cfg("renege at destination", fam, [node(c=1), node(c=1, cap=1)],
                    {"A": klass([ARR, None], [[1.0, 0.5], [4.0, 2.0]], route=matrix([[0.0, 1.0], [0.0, 0.0]]), renege=[None, [1.0, 2.5]])},
                    K=K, T=16.0, features=["blocking", "reneging"]))
+    # nodes without server objects (infinite / slotted / PS) upstream of a full node, simultaneous service ends
+    out += noserver_upstream_block(tier, ps=False)   # PS nodes with blocking are outside the quantifier (cf. C19)
     return out
 
 
